@@ -157,7 +157,7 @@ def case_tree(rng: Any, ctx: Ctx, index: int) -> None:
             cur = boundary(mon, f'+{trace[-1]}', 'pos', c0, None, lambda: +c0)
         else:  # construction shortcuts
             c0 = cur
-            which = gen.pick(rng, ['I@', '@I', 'h@h', 'inv@', '@inv', 'inv@similar'])
+            which = gen.pick(rng, ['I@', '@I', 'h@h', 'inv@', '@inv', 'inv@similar', 'inv@(B@A)'])
             if which == 'inv@similar':
                 # the inverse of one operator next to a DIFFERENT operator of the same class built from the same array object
                 from furax._base.diagonal import DiagonalOperator
@@ -169,6 +169,20 @@ def case_tree(rng: Any, ctx: Ctx, index: int) -> None:
                 pair = (d0.I, d1) if rng.integers(2) else (d1, d0.I)
                 boundary(mon, 'inverse@same-arrays-other-operator', 'matmul', pair[0], pair[1], lambda: pair[0] @ pair[1])
                 LOG.count('C02.shortcut', 'inv@similar')
+                continue
+            if which == 'inv@(B@A)':
+                # the inverse of A next to an already built composition B @ A (A rightmost, i.e. applied first): not a cancellation
+                from furax._base.diagonal import DiagonalOperator
+                dt = gen.data_dtype(c0.out_structure())
+                sq = gen.S((3,), dt)
+                d = DiagonalOperator(gen.dy(rng, (3,), dt, nonzero=True, lo=2), in_structure=sq)
+                b_ = gen.a_dense(rng, sq)
+                inner = b_ @ d
+                xinv = d.I
+                boundary(mon, 'inverse@(B@operand)', 'matmul', xinv, inner, lambda: xinv @ inner)
+                inner2 = d @ b_
+                boundary(mon, '(operand@B)@inverse', 'matmul', inner2, xinv, lambda: inner2 @ xinv)
+                LOG.count('C02.shortcut', 'inv@(B@A)')
                 continue
             if which == 'I@':
                 i = IdentityOperator(c0.out_structure())
